@@ -143,6 +143,24 @@ rendered `name=value`, joined by `&`. -/
 def canonQuery (m : QueryMap) : Bytes :=
   joinWith [0x26] ((sortBy pairLe (queryPairs m)).map renderPair)
 
+/-- `u8::from_str_radix(two bytes, 16)` as `unescape_uri_encoding` uses it: two hexadecimal digits,
+or — a quirk of the standard-library parser — a `+` sign followed by one digit (`"+F"` is 15).
+Anything else (including byte pairs that are not UTF-8, where the `from_utf8(..).unwrap()` before it
+panics instead) is `none`; the caller panics on `none`. Normal-form text never contains such a pair. -/
+def radix16Pair (h1 h2 : UInt8) : Option UInt8 :=
+  if h1 = 0x2B then hexVal h2
+  else match hexVal h1, hexVal h2 with
+    | some a, some b => some (a * 16 + b)
+    | _, _ => none
+
+theorem radix16Pair_of_hexVal {h1 h2 a b : UInt8} (ha : hexVal h1 = some a) (hb : hexVal h2 = some b) :
+    radix16Pair h1 h2 = some (a * 16 + b) := by
+  have hne : h1 ≠ 0x2B := by
+    intro h; subst h
+    have : hexVal 0x2B = none := by decide
+    rw [this] at ha; cases ha
+  simp [radix16Pair, hne, ha, hb]
+
 /-- `unescape_uri_encoding` (canonical.rs:1319-1338): `%hh` becomes the *character* of that code
 (so its UTF-8 rendering), any other byte is pushed as a character too. Panics on bad escapes. -/
 def unescapeUri : Bytes → Outcome Bytes
@@ -151,9 +169,9 @@ def unescapeUri : Bytes → Outcome Bytes
     if c = 0x25 then
       match rest with
       | h1 :: h2 :: rest' =>
-        match hexVal h1, hexVal h2 with
-        | some a, some b => (unescapeUri rest').map (latin1Byte (a * 16 + b) ++ ·)
-        | _, _ => .panic "canonical.rs:1330 illegal hex character"
+        match radix16Pair h1 h2 with
+        | some v => (unescapeUri rest').map (latin1Byte v ++ ·)
+        | none => .panic "canonical.rs:1330 illegal hex character"
       | _ => .panic "canonical.rs:1326 incomplete trailing escape"
     else (unescapeUri rest).map (latin1Byte c ++ ·)
 
